@@ -2,6 +2,7 @@
 """Confirm an independently written property-breaking change and run the registered check against it.
 
 usage: tools/seedeval.py <PROP> <dir with patch.diff demo.py notes.md> <seeded id> [--checks C01,C03] [--tier quick]
+       (the directory may be /verif/seeded/<id> itself: re-evaluates a kept change in place)
 
 Steps (all in a scratch worktree of /repo HEAD under /tmp, removed afterwards):
   1. demo on the clean tree        -> must exit 0
@@ -75,7 +76,7 @@ try:
     except (OSError, ValueError):
         pass
     for fn in ("patch.diff", "demo.py", "notes.md"):
-        if os.path.exists(os.path.join(src, fn)):
+        if os.path.exists(os.path.join(src, fn)) and os.path.realpath(src) != os.path.realpath(out):
             shutil.copy(os.path.join(src, fn), os.path.join(out, fn))
     # the demonstrations load the numpy shim the authors were given; point the kept copy at seeded/shim.py
     dp = os.path.join(out, "demo.py")
